@@ -118,6 +118,8 @@ def _run_job(job):
 def run_jobs(fn, jobs, procs=None, progress=True):
     global _FN
     _FN = fn
+    # heavy jobs first so that they do not end up alone at the tail of the run
+    jobs = sorted(jobs, key=lambda j: -j.get("weight", 0))
     procs = procs or int(os.environ.get("VERIF_PROCS", "16"))
     t0 = time.time()
     results = []
